@@ -333,34 +333,21 @@ theorem executeOwn_spec {c : Ctx} {w : World} {tx : Tx} {acc : Copy} {isFD : Boo
     · obtain ⟨ok, _⟩ := vmCall_spec hoo
       exact ⟨ok.rid, ok.rold, ok.arid, ok.runtime⟩
 
-/-- `finishOwn` conserves Σ + BpReward, given what validation guarantees about the base fee -/
-theorem finishOwn_total {c : Ctx} {w : World} {bp : Nat} {tx : Tx} {acc : Copy} {isFD : Bool} {st : Status}
-    (hc : acc.cur = w.acct acc.id) (ho : acc.old = w.acct acc.id) (hcov : txBaseFee c tx.payloadLen ≤ acc.cur.bal)
-    (hl : (finishOwn w bp tx st (executeOwn c w tx acc isFD)).leak = false) :
-    (finishOwn w bp tx st (executeOwn c w tx acc isFD)).w.total + (finishOwn w bp tx st (executeOwn c w tx acc isFD)).bp
-      = w.total + bp := by
+/-- what an execution on ONE record (`executeOwn`, `executeMulti`) guarantees about its outputs -/
+structure OwnOK (w : World) (acc : Copy) (o : ExecOut) : Prop where
+  rid : o.rcv.id = acc.id
+  rold : o.rcv.old = acc.old
+  arid : o.w.acct acc.id = w.acct acc.id
+  runtime : o.err = some .runtime → o.leak = false → o.w = w
+  sum : o.err = none → o.w.total + o.rcv.cur.bal = w.total + acc.cur.bal ∧ o.fee ≤ o.rcv.cur.bal
+
+/-- `finishOwn` conserves Σ + BpReward -/
+theorem finishOwn_total_of {w : World} {bp : Nat} {tx : Tx} {acc : Copy} {st : Status} {o : ExecOut}
+    (hc : acc.cur = w.acct acc.id) (ho : acc.old = w.acct acc.id) (ok : OwnOK w acc o)
+    (hl : (finishOwn w bp tx st o).leak = false) :
+    (finishOwn w bp tx st o).w.total + (finishOwn w bp tx st o).bp = w.total + bp := by
   have hb : acc.cur.bal = w.bal acc.id := by rw [hc]; rfl
-  generalize hoo : executeOwn c w tx acc isFD = o at hl ⊢
-  -- what executeOwn guarantees
-  have key : o.rcv.id = acc.id ∧ o.rcv.old = acc.old ∧ o.w.acct acc.id = w.acct acc.id ∧
-      (o.err = some .runtime → o.leak = false → o.w = w) ∧
-      (o.err = none → o.w.total + o.rcv.cur.bal = w.total + acc.cur.bal ∧ o.fee ≤ o.rcv.cur.bal) := by
-    unfold executeOwn at hoo
-    simp only [] at hoo
-    split at hoo
-    · subst hoo; simp
-    · subst hoo; simp; exact hcov
-    · split at hoo
-      · subst hoo; simp
-      · have hs := vmCall_spec hoo
-        have hown := vmCall_own hoo
-        obtain ⟨ok, cov⟩ := hs
-        refine ⟨ok.rid, ok.rold, ok.arid, ok.runtime, fun he => ⟨?_, ?_⟩⟩
-        · have := ok.sum he
-          rw [hown] at this
-          omega
-        · simpa using cov he
-  obtain ⟨k1, k2, k3, k4, k5⟩ := key
+  obtain ⟨k1, k2, k3, k4, k5⟩ := ok
   have sf := subBalance_facts o.rcv o.fee
   unfold finishOwn at hl ⊢
   simp only [] at hl ⊢
@@ -387,6 +374,65 @@ theorem finishOwn_total {c : Ctx} {w : World} {bp : Nat} {tx : Tx} {acc : Copy} 
     have := sf.2.2.2.2 hfee
     rw [setNonce_bal, this] at h1
     omega
+
+theorem executeOwn_ok {c : Ctx} {w : World} {tx : Tx} {acc : Copy} {isFD : Bool} {o : ExecOut}
+    (hcov : txBaseFee c tx.payloadLen ≤ acc.cur.bal) (hoo : executeOwn c w tx acc isFD = o) : OwnOK w acc o := by
+  unfold executeOwn at hoo
+  simp only [] at hoo
+  split at hoo
+  · subst hoo; exact ⟨rfl, rfl, rfl, by simp, by simp⟩
+  · subst hoo; exact ⟨rfl, rfl, rfl, by simp, fun _ => ⟨rfl, hcov⟩⟩
+  · split at hoo
+    · subst hoo; exact ⟨rfl, rfl, rfl, by simp, by simp⟩
+    · have hs := vmCall_spec hoo
+      have hown := vmCall_own hoo
+      obtain ⟨ok, cov⟩ := hs
+      refine ⟨ok.rid, ok.rold, ok.arid, ok.runtime, fun he => ⟨?_, ?_⟩⟩
+      · have := ok.sum he
+        rw [hown] at this
+        omega
+      · simpa using cov he
+
+/-- `finishOwn ∘ executeOwn` conserves Σ + BpReward, given what validation guarantees about the base fee -/
+theorem finishOwn_total {c : Ctx} {w : World} {bp : Nat} {tx : Tx} {acc : Copy} {isFD : Bool} {st : Status}
+    (hc : acc.cur = w.acct acc.id) (ho : acc.old = w.acct acc.id) (hcov : txBaseFee c tx.payloadLen ≤ acc.cur.bal)
+    (hl : (finishOwn w bp tx st (executeOwn c w tx acc isFD)).leak = false) :
+    (finishOwn w bp tx st (executeOwn c w tx acc isFD)).w.total + (finishOwn w bp tx st (executeOwn c w tx acc isFD)).bp
+      = w.total + bp :=
+  finishOwn_total_of hc ho (executeOwn_ok hcov rfl) hl
+
+/-- the scripted MULTICALL on the sender's one record -/
+theorem executeMulti_ok {c : Ctx} {w : World} {tx : Tx} {acc : Copy} {o : ExecOut}
+    (hoo : executeMulti c w tx acc = o) : OwnOK w acc o := by
+  unfold executeMulti at hoo
+  simp only [] at hoo
+  split at hoo
+  · subst hoo; exact ⟨rfl, rfl, rfl, by simp, by simp⟩
+  · unfold vmMulti at hoo
+    split at hoo
+    · subst hoo; exact ⟨rfl, rfl, rfl, by simp, by simp⟩
+    · split at hoo
+      · subst hoo; exact ⟨rfl, rfl, rfl, by simp, by simp⟩
+      · subst hoo; exact ⟨rfl, rfl, rfl, by simp, by simp⟩
+    · subst hoo; exact ⟨rfl, rfl, rfl, by simp, by simp⟩
+    · subst hoo; exact ⟨rfl, rfl, rfl, by simp, by simp⟩
+    · split at hoo
+      · subst hoo; exact ⟨rfl, rfl, rfl, by simp, by simp⟩
+      · rename_i sa ra w' t' hx
+        have hsa := runXfers_own hx
+        obtain ⟨x1, x2, x3, x4, x5, x6, x7, x8, x9⟩ := runXfers_ok hx
+        simp only [] at hoo
+        split at hoo
+        · subst hoo
+          refine ⟨rfl, rfl, x3, ?_, by simp⟩
+          intro _ hl
+          simpa using hl
+        · rename_i hfee
+          subst hoo
+          refine ⟨rfl, rfl, x3, by simp, fun _ => ⟨?_, Nat.le_of_not_lt hfee⟩⟩
+          rw [hsa] at x1
+          simp only []
+          omega
 
 /-! ### what the validation steps guarantee -/
 
@@ -445,7 +491,11 @@ theorem executeTx_total' {c : Ctx} {w : World} {bp : Nat} {tx : Tx} {res : Resul
       have hsc : (w.getCopy tx.sender).cur = w.acct (w.getCopy tx.sender).id := by simp
       have hso : (w.getCopy tx.sender).old = w.acct (w.getCopy tx.sender).id := by simp
       split at h
-      · subst h; exact runtimeBranch_total hso hso
+      · -- MULTICALL: `receiver = sender`
+        split at h
+        · subst h
+          exact finishOwn_total_of hsc hso (executeMulti_ok rfl) hl
+        · subst h; exact runtimeBranch_total hso hso
       · rename_i hmc
         split at h
         · subst h; rfl
